@@ -64,6 +64,8 @@ type point struct {
 	preBefore int
 	earlyBefore int
 	ndBefore  int
+	curObjs   []unsafe.Pointer // objects of the running thread's pending operation
+	curShared bool             // one of them is touched by more than one thread in this execution
 }
 
 // Event is one scheduler transition (only recorded in trace mode).
@@ -97,6 +99,7 @@ type sched struct {
 	clockVC vclock
 
 	keyIdent map[any]int
+	objOwner map[unsafe.Pointer]int
 	closed map[unsafe.Pointer]bool
 	objH   map[unsafe.Pointer]uint64
 	objVC  map[unsafe.Pointer]*objClock
@@ -432,7 +435,15 @@ func run(cfg *Config, prefix []int, body func(), trace bool) *Exec {
 				}
 			}
 			s.choices = append(s.choices, ci)
-			s.points = append(s.points, point{nalts: nalts, curAlts: curAlts, defAlts: defAlts, timerAlt: timerAlt, preBefore: pre, earlyBefore: early, ndBefore: nd})
+			var curObjs []unsafe.Pointer
+			if cfg.SharedOnly && curAlts > 0 {
+				po := s.cur.pending
+				if po.obj != nil {
+					curObjs = append(curObjs, po.obj)
+				}
+				curObjs = append(curObjs, po.objs...)
+			}
+			s.points = append(s.points, point{nalts: nalts, curAlts: curAlts, defAlts: defAlts, timerAlt: timerAlt, preBefore: pre, earlyBefore: early, ndBefore: nd, curObjs: curObjs})
 			if timerAlt && ci == nalts-1 {
 				early++
 			} else if curAlts > 0 && ci >= curAlts {
@@ -462,6 +473,12 @@ func run(cfg *Config, prefix []int, body func(), trace bool) *Exec {
 			}
 		}
 		h = mix(h, s.clockH)
+		if cfg.SharedOnly {
+			s.touch(o.obj, c.t.id)
+			for _, ob := range o.objs {
+				s.touch(ob, c.t.id)
+			}
+		}
 		if o.fire != nil {
 			o.fire(c.a) // may hand values to a partner and change its chain
 		}
@@ -521,6 +538,16 @@ func run(cfg *Config, prefix []int, body func(), trace bool) *Exec {
 	}
 	s.wg.Wait()
 	S = nil
+	if cfg.SharedOnly {
+		for i := range s.points {
+			for _, ob := range s.points[i].curObjs {
+				if s.objOwner[ob] == -2 {
+					s.points[i].curShared = true
+				}
+			}
+			s.points[i].curObjs = nil
+		}
+	}
 	x.Choices = s.choices
 	x.points = s.points
 	x.Events = s.events
@@ -535,6 +562,20 @@ func run(cfg *Config, prefix []int, body func(), trace bool) *Exec {
 		x.Races = s.race.reports()
 	}
 	return x
+}
+
+func (s *sched) touch(ob unsafe.Pointer, tid int) {
+	if ob == nil {
+		return
+	}
+	if s.objOwner == nil {
+		s.objOwner = map[unsafe.Pointer]int{}
+	}
+	if o, ok := s.objOwner[ob]; !ok {
+		s.objOwner[ob] = tid
+	} else if o != tid {
+		s.objOwner[ob] = -2
+	}
 }
 
 // watchdog: a thread that blocks natively (uninstrumented blocking) never parks
@@ -600,6 +641,10 @@ type Config struct {
 	Sites      bool          // record call sites of parked operations (slower)
 	Race       bool          // vector-clock race detection on vs.Rd/vs.Wr accesses
 	NoWatchdog bool
+	// SharedOnly: a preemption is only tried before an operation on an object
+	// that more than one thread touches in the parent execution (operations on
+	// thread-private objects commute with everything the other threads do there).
+	SharedOnly bool
 	CountStates bool
 	stateSet   map[uint64]struct{}
 }
@@ -726,6 +771,9 @@ func Explore(cfg Config, body func(), check func(x *Exec) (string, *Violation)) 
 				if pc > cfg.P || tc > cfg.T {
 					continue
 				}
+				if cfg.SharedOnly && pc > p.preBefore && !p.curShared {
+					continue
+				}
 				if cfg.N > 0 && nc > cfg.N || cfg.N < 0 && nc > 0 {
 					continue
 				}
@@ -758,8 +806,15 @@ func Replay(cfg Config, choices []int, body func()) *Exec {
 // Run1 runs body once on the default schedule (used by sequential enumerators
 // that only need virtual time and deterministic goroutines).
 func Run1(cfg Config, body func()) *Exec {
+	if cfg.MaxEvents == 0 {
+		cfg.MaxEvents = 50_000_000
+	}
 	x := run(&cfg, nil, body, false)
 	WatchdogIdle()
+	if x.Livelock {
+		// never truncate an enumerator's case silently
+		panic(fmt.Sprintf("INFRA: vs.Run1: the body exceeded the event budget of %d scheduler events", cfg.MaxEvents))
+	}
 	return x
 }
 
